@@ -4,3 +4,4 @@ import PtaSpec.BuilderSpec
 import PtaSpec.LayerSem
 import PtaSpec.LabelSem
 import PtaSpec.ScanSem
+import PtaSpec.DiagramSem
